@@ -186,6 +186,15 @@ def connection_setters(c):
     c.canary("canary_dt_not_written", num(syn.fields["dt"]) == dt0.z)
 
 
+# a RecordTensor is itself a configurable component: its dt / duration / inclusive setter contracts (C13) belong here too
+from pyvc.harness import REGISTRY as _REG  # noqa: E402
+from . import c13_resize as _c13  # noqa: E402,F401
+
+for _cd in list(_REG.get("C13", [])):
+    if "setter" in _cd.name and not any(x.name == _cd.name for x in _REG.get("C14", [])):
+        contract("C14", _cd.name, list(_cd.targets), min_obligations=_cd.min_obligations)(_cd.fn)
+
+
 ASSUMPTIONS = [
     "equality is established on configuration fields (dt, duration, inclusive, constraints, storage sizes) of every registered record/tensor; equal outputs from a cleared state then follow from determinism of the step functions (C03/C04/C07 contracts) and clear() = constructor state (C17/C03/C04)",
     "resizing the batch dimension is modelled by keeping the fixed element position among the surviving elements (values) and updating the element shape; new batch entries are zero (fresh selector)",
